@@ -278,7 +278,29 @@ def oracle_docs(a):
     return None
 
 
+def _el(n, o="once"):
+    return {"n": n, "o": o}
+
+
+# repeated choices of three and four single elements (libxml2 hands them over as nested
+# binary OR nodes) with documents that interleave the first alternative with the later ones:
+# a seeded change split such a group into several compound fields and lost the order
+HAND_DOCS = [
+    ({"k": "or", "o": "mult", "c": [_el("a"), _el("b"), _el("c")]},
+     [["b", "a", "c", "a", "b"], ["c", "b", "a"], ["a", "a"], []]),
+    ({"k": "seq", "o": "once", "c": [_el("d"), {"k": "or", "o": "mult", "c": [_el("a"), _el("b"), _el("c")]}]},
+     [["d", "b", "a", "c", "a", "b"], ["d"], ["d", "c", "a", "c"]]),
+    ({"k": "seq", "o": "once", "c": [{"k": "or", "o": "plus", "c": [_el("a"), _el("b"), _el("c"), _el("d")]}, _el("e", "opt")]},
+     [["d", "a", "c", "b", "a", "e"], ["b", "d", "b"], ["c"]]),
+    ({"k": "seq", "o": "once", "c": [{"k": "or", "o": "mult", "c": [_el("a"), _el("b")]}, _el("e"), {"k": "or", "o": "mult", "c": [_el("c"), _el("d"), _el("f")]}]},
+     [["b", "a", "b", "e", "f", "c", "d", "c"], ["e"], ["e", "d", "f", "d"]]),
+]
+
+
 def gen_docs(rng, tier):
+    for c, words in HAND_DOCS:
+        if valid_dtd(c):
+            yield {"content": c, "words": words, "attrs": [], "ns": None}
     for c in contents(rng, n_cases(tier, 50, 2500)):
         if not valid_dtd(c):
             continue
